@@ -1,18 +1,27 @@
 (* Properties_C18.v — property theorems for C18 (number/string conversions). Nothing but
    statements closed by [exact] and their assumptions. *)
 From Coq Require Import ZArith NArith List Bool Lia SpecFloat.
-Require Import XV.GenNum XV.NumDefs XV.NumModel.
+Require Import XV.GenNum XV.NumDefs XV.NumModel XV.NumFlocq XV.NumRoundTrip.
 Import ListNotations.
 Local Open Scope Z_scope.
 
 (* sprintf output (with its NUL) fits the smallest stack buffer of the double conversions, for
-   every double and every precision the code tries; sizes and precisions come from GenNum.v,
-   regenerated from DOMStringHelper.cpp on every run *)
+   every double and every precision DoubleToCharacters can reach: the precisions of thePrintfStrings
+   and those of the "%.*f" loop that follows them (start precision from frexp, end at
+   MAX_FRACTION_DIGITS); sizes, precisions and the loop's constants come from GenNum.v, regenerated
+   from DOMStringHelper.cpp on every run *)
 Theorem printf_fits : forall x p,
-  valid_binary prec emax x = true -> In p printf_precisions ->
+  valid_binary prec emax x = true -> In p printf_precisions \/ In p (ext_precisions x) ->
   (printf_bytes p x <= printf_buffer_bytes)%nat.
-Proof. exact printf_fits_lemma. Qed.
+Proof. exact printf_fits_ext_lemma. Qed.
 Print Assumptions printf_fits.
+
+(* the "%.*f" loop stays within (last table precision, MAX_FRACTION_DIGITS] *)
+Theorem ext_loop_bounded : forall x p,
+  valid_binary prec emax x = true -> In p (ext_precisions x) ->
+  (printf_last_table_precision < p <= printf_max_precision)%nat.
+Proof. exact ext_precisions_bounds. Qed.
+Print Assumptions ext_loop_bounded.
 
 (* the hypothesis above holds for every 64-bit pattern *)
 Theorem every_pattern_valid : forall b, valid_binary prec emax (of_bits b) = true.
@@ -83,20 +92,122 @@ Example round_instances :
 Proof. vm_compute. repeat split. Qed.
 Print Assumptions round_instances.
 
-(* FULL round-trip statement of the property (kept visible):
-     forall x, finite x -> string_to_number (number_to_string x) == x.
-   It is FALSE of the faithful model (and of the library): below ~1e-35 the 35-digit limit of the
-   printf loop loses the value.  Witness: 1e-40. *)
-Definition num2str_roundtrip_statement : Prop :=
-  forall b, 0 <= b < 2 ^ 64 -> d_is_nan (of_bits b) = false ->
-    d_eqb (string_to_number (number_to_string (of_bits b))) (of_bits b) = true.
+(* ROUND TRIP, the full statement (refuted before the repair of K5, proved now).
+   For every double x (every value of the model type that is a valid binary64 datum):
+     - finite and non-zero: number(string(x)) is x itself, bit for bit (same sign, mantissa, exponent);
+     - +0 and -0: string is "0" and number("0") is +0, so -0 comes back as +0 (IEEE-equal, see
+       num2str_roundtrip_ieee) -- the sign of zero cannot survive a string that the property itself
+       requires to carry '-' only for negative values;
+     - NaN: "NaN" comes back as NaN (the model has one NaN; payloads are not distinguished by XPath);
+     - +-Infinity: "Infinity" / "-Infinity" are not XPath Numbers, number() of them is NaN as XPath
+       1.0 prescribes -- the only doubles for which number(string(x)) is not x. *)
+Theorem num2str_roundtrip : forall x, valid_binary prec emax x = true ->
+  string_to_number (number_to_string x) =
+  match x with
+  | S754_finite _ _ _ => x
+  | S754_zero _ => S754_zero false
+  | S754_nan => S754_nan
+  | S754_infinity _ => S754_nan
+  end.
+Proof. exact roundtrip_all. Qed.
+Print Assumptions num2str_roundtrip.
 
-Theorem num2str_roundtrip_refuted : ~ num2str_roundtrip_statement.
+(* the same on bit patterns: for each of the 2^64 - 2^53 - 2 patterns of a finite non-zero double,
+   number(string(x)) has exactly the pattern of x *)
+Theorem num2str_roundtrip_bits : forall b, 0 <= b < 2 ^ 64 ->
+  match of_bits b with
+  | S754_finite _ _ _ => to_bits (string_to_number (number_to_string (of_bits b))) = b
+  | _ => True
+  end.
+Proof. exact roundtrip_bits. Qed.
+Print Assumptions num2str_roundtrip_bits.
+
+(* the statement that was refuted before, for every 64-bit pattern of a finite double, with IEEE == *)
+Theorem num2str_roundtrip_ieee : forall b,
+  match of_bits b with
+  | S754_nan | S754_infinity _ => True
+  | x => d_eqb (string_to_number (number_to_string x)) x = true
+  end.
+Proof. exact roundtrip_patterns. Qed.
+Print Assumptions num2str_roundtrip_ieee.
+
+(* why the loops end well: whichever exit returns it, the buffer is sprintf("%.pf", x) for some p and
+   atof reads it back as x (early exits by the loop's own test; the last precision because the
+   expansion is exact there and atof of an exact numeral of a representable value is that value) *)
+Theorem double_to_characters_reads_back : forall s m e,
+  valid_binary prec emax (S754_finite s m e) = true ->
+  exists p, double_to_characters (S754_finite s m e) = printf_f p (S754_finite s m e) /\
+            atof (printf_f p (S754_finite s m e)) = S754_finite s m e.
+Proof. exact NumRoundTrip.double_to_characters_reads_back. Qed.
+Print Assumptions double_to_characters_reads_back.
+
+(* the start precision derived from frexp() is only a short cut: every precision it skips prints
+   nothing but zeros, so the "%.*f" loop returns what the plain search 36, 37, ... would return --
+   the fewest fractional digits (at least 10) that read back as x *)
+Theorem ext_start_skips_nothing : forall s m e, valid_binary prec emax (S754_finite s m e) = true ->
+  try_precisions (S754_finite s m e) (ext_precisions (S754_finite s m e)) [] =
+  try_precisions (S754_finite s m e)
+    (seq (S printf_last_table_precision) (printf_max_precision - printf_last_table_precision)) [].
+Proof. exact NumRoundTrip.ext_start_skips_nothing. Qed.
+Print Assumptions ext_start_skips_nothing.
+
+(* the two parsers agree where it matters: DoubleSupport::toDouble of the trimmed text (validation,
+   long fast path or atof) is C atof of the untrimmed sprintf buffer the loop tested *)
+Theorem toDouble_of_trimmed_is_atof_of_buffer : forall s m e p,
+  string_to_number (trim_number (printf_f p (S754_finite s m e))) = atof (printf_f p (S754_finite s m e)).
+Proof. exact s2n_trim_printf. Qed.
+Print Assumptions toDouble_of_trimmed_is_atof_of_buffer.
+
+(* number(s) for a numeral  ['-'] digits ['.' digits]  is the double nearest to it ... *)
+Theorem str2num_numeral_nearest : forall neg ip fp, all_digits ip -> all_digits fp -> ip <> [] ->
+  string_to_number (sgn neg ++ ip ++ frac fp) =
+  nearest_double neg (value_of_digits 0 (ip ++ fp)) (10 ^ Z.of_nat (length fp)).
+Proof. exact s2n_numeral. Qed.
+Print Assumptions str2num_numeral_nearest.
+
+(* ... where nearest_double is round-to-nearest-even of the rational num/den in the sense of Flocq
+   (valid result; its real value is the rounding and its sign the given one, or overflow to infinity) *)
+Theorem nearest_double_correctly_rounded : forall s num den, 0 < num -> 0 < den ->
+  rounds_to s (Rdefinitions.Rdiv (Rdefinitions.IZR (Flocq.Core.Zaux.cond_Zopp s num)) (Rdefinitions.IZR den))
+            (nearest_double s num den).
+Proof. exact nearest_double_spec. Qed.
+Print Assumptions nearest_double_correctly_rounded.
+
+(* FORM of string(x) for finite non-zero x: optional '-' exactly when x is negative, an integer part
+   that is "0" or has no leading zero, and either no fraction or a point followed by digits that do
+   not end in '0' -- hence no exponent, no superfluous zeros, a digit on each side of the point *)
+Theorem num2str_form : forall s m e, valid_binary prec emax (S754_finite s m e) = true ->
+  exists ip fp, number_to_string (S754_finite s m e) = sgn s ++ ip ++ frac fp /\
+    all_digits ip /\ all_digits fp /\ int_part_ok ip /\ frac_ok fp.
+Proof. exact number_to_string_shape. Qed.
+Print Assumptions num2str_form.
+
+(* and it is an XPath Number (the recogniser of str2num_grammar accepts it) whose '-' is the sign of x;
+   with num2str_roundtrip the numeral is never "-0": it denotes x, which is not zero *)
+Theorem num2str_is_number : forall s m e, valid_binary prec emax (S754_finite s m e) = true ->
+  fst (ref_validate (number_to_string (S754_finite s m e))) = true /\
+  starts_with_minus (number_to_string (S754_finite s m e)) = s.
 Proof.
-  intros H. specialize (H 0x37A16C262777579C ltac:(lia) ltac:(reflexivity)).
-  vm_compute in H. discriminate H.
+  intros s m e Hv. destruct (number_to_string_is_number s m e Hv) as [H1 H2]. rewrite H1. auto.
 Qed.
-Print Assumptions num2str_roundtrip_refuted.
+Print Assumptions num2str_is_number.
+
+(* regression for K5: before the repair the loop stopped at "%.35f" and string(1e-40) was "0",
+   string(-1e-40) "-0"; now both come back bit for bit, and so does the smallest subnormal *)
+Example k5_before_the_fix :
+  trim_number (try_precisions (of_bits 0x37A16C262777579C) printf_precisions []) = [48]%N /\
+  trim_number (try_precisions (of_bits 0xB7A16C262777579C) printf_precisions []) = [45; 48]%N.
+Proof. vm_compute. split; reflexivity. Qed.
+Print Assumptions k5_before_the_fix.
+
+Example k5_after_the_fix :
+  to_bits (string_to_number (number_to_string (of_bits 0x37A16C262777579C))) = 0x37A16C262777579C /\
+  to_bits (string_to_number (number_to_string (of_bits 0xB7A16C262777579C))) = 0xB7A16C262777579C /\
+  to_bits (string_to_number (number_to_string (of_bits 1))) = 1 /\
+  length (number_to_string (of_bits 1)) = 326%nat /\
+  number_to_string (of_bits 0x37A16C262777579C) = [48; 46]%N ++ zeros 39 ++ [49]%N.
+Proof. vm_compute. repeat split; reflexivity. Qed.
+Print Assumptions k5_after_the_fix.
 
 (* number('-0') is -0 on both paths (the short-string path goes through a long, which has no negative
    zero; repaired in the library by the coordinator's fix commit, the model follows the code) *)
